@@ -117,19 +117,29 @@ pub fn run_c13(ctx: &Ctx, index: u64, cov: &mut Cov) -> Option<Violation> {
         c.1.clear();
     }
     // mostly small; now and then a request that is large in bytes
+    let worn: u32 = if index % 23 == 7 { [126u32, 254, 16_382, 32_760][rng.below(4)] + rng.below(8) as u32 } else { 0 };
     let capn = if index % 97 == 5 { [3_000usize, 12_000, 50_000, 200_000][rng.below(4)] + rng.below(1000) } else { rng.below(40) };
     if capn > 1000 {
         cov.bump("with_capacity_requests_above_1000_nodes");
     }
     let mut a: State<Plain> = State::new();
     let mut b: Arena<Plain> = Arena::with_capacity(capn);
+    if worn > 0 {
+        // both arenas get the same past (a slot recycled `worn` times, everything free again), but
+        // different spare capacity: what they do from here on must still be the same
+        let mut r1 = Rng::derive(ctx.seed, 131, index);
+        let mut r2 = Rng::derive(ctx.seed, 131, index);
+        a = State::primed_worn(&mut r1, worn, 0);
+        b = State::<Plain>::primed_worn(&mut r2, worn, capn.max(1)).arena;
+        cov.bump("histories_started_on_arenas_with_a_worn_slot");
+    }
     if b.capacity() < capn {
         return v(ctx, "with_capacity", format!("with_capacity({}).capacity() = {}", capn, b.capacity()), &workload, 0, &[]);
     }
-    if Arena::<Plain>::default() != Arena::new() || !(a.arena == Arena::default()) {
+    if worn == 0 && (Arena::<Plain>::default() != Arena::new() || !(a.arena == Arena::default())) {
         return v(ctx, "default-vs-new", "Arena::default() is not equal to Arena::new()".into(), &workload, 0, &[]);
     }
-    if !(b == a.arena) || !b.is_empty() || b.count() != 0 {
+    if !(b == a.arena) || (worn == 0 && (!b.is_empty() || b.count() != 0)) {
         return v(ctx, "with_capacity-observable", format!("with_capacity({}) is not equal to a new arena", capn), &workload, 0, &[]);
     }
     // clear() keeps the capacity also when there is nothing to drop (cleared before first use, twice, after reserve)
@@ -267,7 +277,12 @@ pub fn run_c13(ctx: &Ctx, index: u64, cov: &mut Cov) -> Option<Violation> {
     }
     // scratch replay of the whole history of A
     let replay = |ops: &[Op]| -> Result<State<Plain>, String> {
-        let mut s: State<Plain> = State::new();
+        let mut s: State<Plain> = if worn > 0 {
+            let mut r = Rng::derive(ctx.seed, 131, index);
+            State::primed_worn(&mut r, worn, 0)
+        } else {
+            State::new()
+        };
         for op in ops {
             let i = s.step(op);
             if i.diverged || !i.findings.is_empty() {
